@@ -127,8 +127,13 @@ type c07Case struct {
 	In string `json:"in,omitempty"`
 	// panic("…") values: index into c07Decor, appended to the marker
 	PanicDec int `json:"panic_dec,omitempty"`
+	// optional interfaces of the UNDERLYING writer, as net/http's connection writer has them
+	// (httptest.ResponseRecorder has none): bit 1 io.ReaderFrom, bit 2 io.StringWriter + FlushError
+	Caps int `json:"caps,omitempty"`
 	// where the error is raised: "" in the route's handler | pre | use | group: in a middleware
-	// that sits innermost at that level (so only the layers of that level and outside see it)
+	// that sits innermost at that level (so only the layers of that level and outside see it);
+	// after: the route's handler does the Pre part and returns nil, the innermost Use-level
+	// middleware then fails on the way back
 	From string `json:"from,omitempty"`
 }
 
@@ -507,6 +512,42 @@ func (c *c07Case) chain() (layers []c07Layer, nPre, nUse, nGroup int) {
 	return layers, 0, len(layers), 0
 }
 
+// What the failing code did to the response first.  Besides the direct calls (wrote = c.String,
+// nocontent, flush = Response.Flush, writeheader, jsonbad) there are the ways that reach
+// echo.Response through the optional-interface probes of the standard library — an
+// implementation of such an interface on Response would have to do the commit bookkeeping itself:
+//   copy     io.Copy(resp, source without WriteTo)      probes resp for io.ReaderFrom
+//   copywt   io.Copy(resp, strings.NewReader("pre"))    WriteTo → io.WriteString: io.StringWriter
+//   wstring  io.WriteString(resp, "pre")                io.StringWriter
+//   stream   c.Stream(code, type, reader)               WriteHeader, then io.Copy
+//   rcflush  http.NewResponseController(resp).Flush()   FlushError / http.Flusher
+//   feflush  FlushError() if resp offers it, else Flush()
+// copy / copywt / wstring commit implicitly: with 200, or with PreCode preset by a failed c.JSON.
+// Category for model and oracle: wrote | nocontent | flush | writeheader | jsonbad | "".
+func c07PreCat(pre string) string {
+	switch pre {
+	case "copy", "copywt", "wstring", "stream":
+		return "wrote"
+	case "rcflush", "feflush":
+		return "flush"
+	}
+	return pre
+}
+
+func c07PreImplicit(pre string) bool { return pre == "copy" || pre == "copywt" || pre == "wstring" }
+
+// a reader without WriteTo that hands out its text in one Read
+type c07Src struct{ s string }
+
+func (r *c07Src) Read(b []byte) (int, error) {
+	if r.s == "" {
+		return 0, io.EOF
+	}
+	n := copy(b, r.s)
+	r.s = r.s[n:]
+	return n, nil
+}
+
 func c07IsAbort(rq *c07Case) bool {
 	return rq.Panic == "abort" || (rq.Panic == "err" && rq.Err != nil && rq.Err.K == "plain" && rq.Err.Std == c07StdAbort)
 }
@@ -583,7 +624,7 @@ func c07Effective(cfg, rq *c07Case) []c07Layer {
 	switch {
 	case rq.From == "pre":
 		return layers[:nPre]
-	case rq.Via != "" || rq.From == "use":
+	case rq.Via != "" || rq.From == "use" || rq.From == "after":
 		return layers[:nPre+nUse]
 	case rq.From == "group":
 		return layers[:nPre+nUse+nGroup]
@@ -612,7 +653,7 @@ func c07EncLayer(rq *c07Case, i int, l c07Layer) string {
 
 // model line of one request; raised = resolved tree of the raised error value (nil for non-error panics)
 func c07OpsOne(cfg, c *c07Case, raised *c07Err) string {
-	pre := map[string]int{"": 0, "wrote": 1, "nocontent": 2, "flush": 3, "jsonbad": 4, "writeheader": 5}[c.Pre]
+	pre := map[string]int{"": 0, "wrote": 1, "nocontent": 2, "flush": 3, "jsonbad": 4, "writeheader": 5}[c07PreCat(c.Pre)]
 	preCode := c.PreCode
 	if c.In != "" {
 		pre = 6 // the commit of the pre-step is aborted by a panic
@@ -674,6 +715,55 @@ func (w *c07Writer) Write(b []byte) (int, error) {
 	}
 	return len(b), nil
 }
+// optional interfaces of the underlying writer (Caps)
+type c07mR struct{ w *c07Writer }
+type c07mX struct{ w *c07Writer }
+
+func (m c07mR) ReadFrom(src io.Reader) (int64, error) {
+	buf := make([]byte, 32*1024)
+	var total int64
+	for {
+		n, rerr := src.Read(buf)
+		if n > 0 {
+			k, werr := m.w.Write(buf[:n])
+			total += int64(k)
+			if werr != nil {
+				return total, werr
+			}
+		}
+		if rerr == io.EOF {
+			return total, nil
+		}
+		if rerr != nil {
+			return total, rerr
+		}
+	}
+}
+func (m c07mX) WriteString(s string) (int, error) { return m.w.Write([]byte(s)) }
+func (m c07mX) FlushError() error                 { m.w.Flush(); return nil }
+
+func c07Under(w *c07Writer, caps int) http.ResponseWriter {
+	switch caps & 3 {
+	case 1:
+		return struct {
+			*c07Writer
+			c07mR
+		}{w, c07mR{w}}
+	case 2:
+		return struct {
+			*c07Writer
+			c07mX
+		}{w, c07mX{w}}
+	case 3:
+		return struct {
+			*c07Writer
+			c07mR
+			c07mX
+		}{w, c07mR{w}, c07mX{w}}
+	}
+	return w
+}
+
 func (w *c07Writer) Flush() {
 	if len(w.calls) == 0 {
 		w.calls = append(w.calls, -200)
@@ -791,6 +881,7 @@ type c07State struct {
 	logFn   []c07LogFnCall // LogErrorFunc invocations
 	skipper []int          // layers whose Skipper was consulted
 
+	after     bool     // From == after: the handler has returned, the middleware is failing now
 	panicLogs []string // levels at which "[PANIC RECOVER] ..." was logged
 	errorLogs int      // other Logger.Error calls (the error handler's own write failed)
 }
@@ -802,7 +893,7 @@ type c07LogFnCall struct {
 }
 
 func (st *c07State) reset(rq *c07Case) {
-	st.cur, st.resp, st.raised = rq, nil, nil
+	st.cur, st.resp, st.raised, st.after = rq, nil, nil, false
 	st.ehErrs, st.logFn, st.skipper, st.panicLogs, st.errorLogs = nil, nil, nil, nil, 0
 }
 
@@ -922,7 +1013,27 @@ func c07NewEcho(c *c07Case, st *c07State) *echo.Echo {
 				}
 			})
 		}
+		if c07PreImplicit(c.Pre) && c.PreCode != 200 && c.PreCode != 0 {
+			_ = ctx.JSON(c.PreCode, make(chan int)) // presets the status, sends nothing
+		}
 		switch c.Pre {
+		case "copy":
+			_, _ = io.Copy(ctx.Response(), &c07Src{"pre"})
+		case "copywt":
+			_, _ = io.Copy(ctx.Response(), strings.NewReader("pre"))
+		case "wstring":
+			_, _ = io.WriteString(ctx.Response(), "pre")
+		case "stream":
+			_ = ctx.Stream(c.PreCode, "text/plain", &c07Src{"pre"})
+		case "rcflush":
+			_ = http.NewResponseController(ctx.Response()).Flush()
+		case "feflush":
+			var rw http.ResponseWriter = ctx.Response()
+			if fe, ok := rw.(interface{ FlushError() error }); ok {
+				_ = fe.FlushError()
+			} else {
+				ctx.Response().Flush()
+			}
 		case "wrote":
 			_ = ctx.String(c.PreCode, "pre")
 		case "nocontent":
@@ -933,6 +1044,9 @@ func c07NewEcho(c *c07Case, st *c07State) *echo.Echo {
 			_ = ctx.JSON(c.PreCode, make(chan int))
 		case "writeheader":
 			ctx.Response().WriteHeader(c.PreCode)
+		}
+		if c.From == "after" && !st.after {
+			return nil // the middleware fails on the way back
 		}
 		if c.Panic == "" {
 			st.raised = c07Build(c.Err)
@@ -946,6 +1060,18 @@ func c07NewEcho(c *c07Case, st *c07State) *echo.Echo {
 		return func(next echo.HandlerFunc) echo.HandlerFunc {
 			return func(ctx echo.Context) error {
 				if st.cur != nil && st.cur.From == level && st.cur.Via == "" {
+					return raise(ctx)
+				}
+				if level == "use" && st.cur != nil && st.cur.From == "after" && st.cur.Via == "" {
+					if err := next(ctx); err != nil {
+						return err
+					}
+					st.after = true
+					rq := *st.cur
+					rq.Pre, rq.In = "", "" // the response part is done: now fail
+					saved := st.cur
+					st.cur = &rq
+					defer func() { st.cur = saved }()
 					return raise(ctx)
 				}
 				return next(ctx)
@@ -993,17 +1119,26 @@ func c07Normalise(rq *c07Case) {
 	default:
 		rq.Via = ""
 	}
-	if rq.Via != "" || (rq.From != "pre" && rq.From != "use" && rq.From != "group") {
+	if rq.Via != "" || (rq.From != "pre" && rq.From != "use" && rq.From != "group" && rq.From != "after") {
 		rq.From = ""
+	}
+	if rq.From == "after" {
+		rq.In = ""
+	}
+	if c07PreImplicit(rq.Pre) && rq.PreCode == 0 {
+		rq.PreCode = 200
+	}
+	if c07PreCat(rq.Pre) == "flush" {
+		rq.PreCode = 0
 	}
 	switch {
 	case rq.Via != "":
 		rq.In = ""
 	case rq.In == "hook":
-		if rq.Pre != "wrote" && rq.Pre != "nocontent" && rq.Pre != "writeheader" && rq.Pre != "flush" {
+		if cat := c07PreCat(rq.Pre); cat != "wrote" && cat != "nocontent" && cat != "writeheader" && cat != "flush" {
 			rq.Pre, rq.PreCode = "wrote", 200
 		}
-		if rq.Pre != "flush" && (rq.PreCode < 100 || rq.PreCode > 999) {
+		if c07PreCat(rq.Pre) != "flush" && (rq.PreCode < 100 || rq.PreCode > 999) {
 			rq.PreCode = 200
 		}
 		if rq.Panic == "" {
@@ -1022,6 +1157,9 @@ func c07Normalise(rq *c07Case) {
 		}
 	default:
 		rq.In = ""
+	}
+	if rq.In != "writer" && rq.Pre != "" && c07PreCat(rq.Pre) != "flush" && (rq.PreCode < 100 || rq.PreCode > 999) {
+		rq.PreCode = 200 // codes the writer would refuse only with In == writer
 	}
 }
 
@@ -1173,7 +1311,7 @@ func c07One(e *echo.Echo, cfg, c *c07Case, raised *c07Err, st *c07State, tagSet 
 				crashed = true
 			}
 		}()
-		e.ServeHTTP(w, req)
+		e.ServeHTTP(c07Under(w, c.Caps), req)
 		committed = st.resp != nil && st.resp.Committed
 	}()
 
@@ -1214,7 +1352,8 @@ func c07One(e *echo.Echo, cfg, c *c07Case, raised *c07Err, st *c07State, tagSet 
 	}
 	want := c07Travel(layers, c, carried)
 	head := c.Method == http.MethodHead
-	preCommitted := (c.Pre == "wrote" || c.Pre == "nocontent" || c.Pre == "flush" || c.Pre == "writeheader") && c.In == ""
+	preCat := c07PreCat(c.Pre)
+	preCommitted := (preCat == "wrote" || preCat == "nocontent" || preCat == "flush" || preCat == "writeheader") && c.In == ""
 	var body []byte
 	for _, ch := range w.chunks {
 		body = append(body, ch...)
@@ -1269,11 +1408,11 @@ func c07One(e *echo.Echo, cfg, c *c07Case, raised *c07Err, st *c07State, tagSet 
 		if preCommitted {
 			tag("committed-before")
 			wantStatus := c.PreCode
-			if c.Pre == "flush" {
+			if preCat == "flush" {
 				wantStatus = 200
 			}
 			wantBody := ""
-			if c.Pre == "wrote" {
+			if preCat == "wrote" {
 				wantBody = "pre"
 			}
 			if status != wantStatus || string(body) != wantBody {
@@ -1442,6 +1581,15 @@ func c07One(e *echo.Echo, cfg, c *c07Case, raised *c07Err, st *c07State, tagSet 
 	if c.In != "" {
 		tag("panic-inside-commit:" + c.In)
 	}
+	if c.Pre != c07PreCat(c.Pre) {
+		tag("response-written-through:" + c.Pre)
+	}
+	if c.Caps&1 != 0 {
+		tag("underlying-writer-is-ReaderFrom")
+	}
+	if c.Caps&2 != 0 {
+		tag("underlying-writer-is-StringWriter+FlushError")
+	}
 	if c.Ctx != "" {
 		tag("request-context-" + c.Ctx)
 	}
@@ -1479,7 +1627,7 @@ func c07One(e *echo.Echo, cfg, c *c07Case, raised *c07Err, st *c07State, tagSet 
 	if status == 204 || status == 304 {
 		tag("bodyless-status")
 	}
-	if c.Pre == "jsonbad" {
+	if c.Pre == "jsonbad" || (c07PreImplicit(c.Pre) && c.PreCode != 200) {
 		tag("status-preset-before")
 	}
 	return obs, oracle, c07Depth(carried) >= 2 || c.Panic != "" || preCommitted || len(layers) >= 2
@@ -1677,10 +1825,11 @@ func c07GenRequest(r *rand.Rand, cfg *c07Case, maxDepth int) *c07Case {
 	g := &c07G{r: r}
 	c := &c07Case{Method: []string{http.MethodGet, http.MethodGet, http.MethodGet, http.MethodHead, http.MethodHead, http.MethodPost, http.MethodPut, http.MethodDelete, http.MethodOptions, http.MethodPatch}[r.Intn(10)]}
 	if r.Intn(6) == 0 {
-		c.From = []string{"pre", "use", "group"}[r.Intn(3)]
+		c.From = []string{"pre", "use", "group", "after"}[r.Intn(4)]
 	}
+	c.Caps = []int{0, 1, 1, 2, 3, 3}[r.Intn(6)]
 	if r.Intn(3) == 0 {
-		c.Pre = []string{"wrote", "nocontent", "flush", "jsonbad", "writeheader"}[r.Intn(5)]
+		c.Pre = []string{"wrote", "nocontent", "flush", "jsonbad", "writeheader", "copy", "copy", "copywt", "wstring", "stream", "rcflush", "feflush"}[r.Intn(12)]
 		if c.Pre != "flush" {
 			c.PreCode = g.code()
 		}
@@ -1702,7 +1851,7 @@ func c07GenRequest(r *rand.Rand, cfg *c07Case, maxDepth int) *c07Case {
 	switch r.Intn(16) {
 	case 0:
 		c.In = "hook"
-		c.Pre, c.PreCode = []string{"wrote", "nocontent", "writeheader", "flush"}[r.Intn(4)], g.code()
+		c.Pre, c.PreCode = []string{"wrote", "nocontent", "writeheader", "flush", "copy", "copywt", "wstring", "stream", "rcflush"}[r.Intn(9)], g.code()
 	case 1:
 		c.In = "writer"
 		c.Pre, c.PreCode = []string{"wrote", "nocontent", "writeheader"}[r.Intn(3)], []int{0, 0, 1, 99, 1000, 65536, -1}[r.Intn(7)]
@@ -1824,6 +1973,7 @@ func c07Gen(r *rand.Rand, tier string) []any {
 	out = append(out, c07GenChains(r)...)
 	out = append(out, c07GenBytes(r)...)
 	out = append(out, c07GenCommitPanics(r)...)
+	out = append(out, c07GenFastPaths(r)...)
 	for i := 0; i < nrt; i++ {
 		c := c07GenCase(r, depth)
 		for c07UsesSent(c.Err) || c.Ctx != "" || c.WFail {
@@ -2108,6 +2258,39 @@ func c07GenCommitPanics(r *rand.Rand) []any {
 	return out
 }
 
+// the response written through every optional-interface route, on every kind of underlying
+// writer, and THEN the failure: returned by the handler, by a middleware on the way back,
+// panicked; followed by the same on the recycled context
+func c07GenFastPaths(r *rand.Rand) []any {
+	var out []any
+	g := &c07G{r: r, next: 2000}
+	chains := [][]c07Layer{
+		nil,
+		{{K: "recover", Default: true}},
+		{{K: "cerr", Ret: true}, {K: "recover", DisableEH: true, NoStack: true}},
+	}
+	k := 0
+	for _, pre := range []string{"copy", "copywt", "wstring", "stream", "rcflush", "feflush", "wrote", "flush"} {
+		for caps := 0; caps < 4; caps++ {
+			for ci, ch := range chains {
+				for _, from := range []string{"", "after"} {
+					k++
+					c := &c07Case{Debug: k%4 == 0, Method: []string{http.MethodGet, http.MethodPost, http.MethodHead}[k%3], Layers: ch, NUse: len(ch),
+						Pre: pre, PreCode: []int{200, 0, 202, 404, 500}[k%5], Caps: caps, From: from, CustomEH: k%2 == 0}
+					if ci > 0 && k%2 == 0 {
+						c.Panic, c.PanicT = "str", g.atom()
+					} else {
+						c.Err = []*c07Err{{K: "plain", T: g.atom()}, {K: "http", Code: 409, Msg: &c07Msg{K: "str", T: g.atom()}}}[k%2]
+					}
+					c.Then = []*c07Case{{Method: http.MethodGet, Pre: []string{"copy", "wstring", "rcflush"}[k%3], Caps: 3 - caps, Err: &c07Err{K: "plain", T: g.atom()}}}
+					out = append(out, c)
+				}
+			}
+		}
+	}
+	return out
+}
+
 func c07Shrink(ci any) []any {
 	c := ci.(*c07Case)
 	var out []any
@@ -2209,6 +2392,16 @@ func c07Shrink(ci any) []any {
 	if c.In != "" {
 		add(func(d *c07Case) { d.In = "" })
 	}
+	if c.Caps != 0 {
+		add(func(d *c07Case) { d.Caps = 0 })
+		if c.Caps == 3 {
+			add(func(d *c07Case) { d.Caps = 1 })
+			add(func(d *c07Case) { d.Caps = 2 })
+		}
+	}
+	if c.Pre != c07PreCat(c.Pre) {
+		add(func(d *c07Case) { d.Pre = c07PreCat(c.Pre) })
+	}
 	if c.PanicDec != 0 {
 		add(func(d *c07Case) { d.PanicDec = 0 })
 	}
@@ -2233,8 +2426,10 @@ func c07Shrink(ci any) []any {
 		if t.Method != http.MethodGet && t.Via != "405" {
 			add(func(d *c07Case) { d.Then[i].Method = http.MethodGet })
 		}
-		if t.Ctx != "" || t.WFail || len(t.Skip) > 0 || t.From != "" {
-			add(func(d *c07Case) { d.Then[i].Ctx, d.Then[i].WFail, d.Then[i].Skip, d.Then[i].From = "", false, nil, "" })
+		if t.Ctx != "" || t.WFail || len(t.Skip) > 0 || t.From != "" || t.Caps != 0 {
+			add(func(d *c07Case) {
+				d.Then[i].Ctx, d.Then[i].WFail, d.Then[i].Skip, d.Then[i].From, d.Then[i].Caps = "", false, nil, "", 0
+			})
 		}
 		if t.Err != nil && t.Via == "" {
 			for _, v := range c07ShrinkErr(t.Err) {
@@ -2320,7 +2515,7 @@ func c07Mutate(r *rand.Rand, ci any) []any {
 func init() {
 	register(&Prop{
 		ID:             "C07",
-		Rule:           "an Echo configuration x a sequence of 1-4 failing requests through that one Echo, served one after the other on one goroutine (pooled context reused), each judged on its own.  Error values as trees: plain | wrap (fmt.Errorf(%w), errors.Join, an application type with Unwrap) | *echo.HTTPError (NewHTTPError / literal / SetInternal / WithInternal) with message kinds {string, default StatusText, error value, json.Marshaler (also one that is an error too), map/struct/slice/named string type, nil} and Internal {none, plain, wrapped, HTTPError, nested}, depth <= 3 (thorough: 5), codes 200-599 incl. 204/304; plain errors are unique markers or one of 18 well-known error VALUES (context.Canceled, context.DeadlineExceeded, io.EOF, io.ErrUnexpectedEOF, http.ErrAbortHandler (returned), http.ErrHandlerTimeout, os.ErrNotExist, sql.ErrNoRows, net.ErrClosed, echo.ErrValidatorNotRegistered, ...); HTTP errors may be built from 16 exported echo variables (echo.ErrInternalServerError, ErrNotFound, ErrUnauthorized, ...) as they are or decorated with SetInternal (changes the variable for all later requests; the harness tracks that symbolically, runs such cases alone and restores the variables) / WithInternal; the router's own 404 / 405 as error sources.  x raised in the route's handler or in a middleware at Pre / Use / group level x returned or panicked (panic values: error, string, int, struct, http.ErrAbortHandler) x a middleware chain of 0-4 layers, each a Recover instance (Recover() or RecoverWithConfig with DisableErrorHandler, Skipper skipping per request, LogErrorFunc returning the same error / another error / nil, every LogLevel, DisablePrintStack, DisableStackAll, StackSize 0/1/64/4096/16384) or a middleware that calls c.Error(err) and returns err or nil, placed at Pre / Use / group / route level x Echo.HTTPErrorHandler = the default or a counting wrapper around it (number of hand-overs and the error value handed over are checked) x handler did {nothing, String, NoContent, Flush, WriteHeader, failed JSON} before failing x GET/HEAD/POST/PUT/DELETE/OPTIONS/PATCH x Debug x request context live / cancelled / past its deadline x underlying writer accepting or failing every Write; fixed families: legacy configurations, decision points of the handler (two Internal levels, %w around / inside an HTTPError), every well-known value in four positions x three chains, every exported variable decorated in request 1 and plain errors / panics / the bare variable / router 404+405 afterwards, every LogErrorFunc mode x DisableErrorHandler x outer middleware x LogLevel, Skipper masks over 1-3 (+1 default) instances; every text is a unique marker, a third of the string / error-valued messages and a quarter of the plain / wrapper texts and panic strings followed by one of 19 byte decorations (NUL, 0x01, \\a, \\v, DEL, invalid UTF-8, a surrogate half, a non-printable astral rune, U+2028/2029, C1 controls, BOM, quotes, backslash, HTML characters, ESC sequence, non-ASCII text, format verbs): the oracle decodes the body as JSON and compares message (and Debug detail) with the original text up to U+FFFD for invalid bytes; one request in eight panics INSIDE the commit step of its own response write (a Response.Before hook that panics with any kind of value, or a status code outside 100..999 on a writer that refuses it like net/http); a follow-up request checks the server still serves; thorough: 3000 cases also through a real httptest.Server; non-trivial = tree depth >= 2, or a panic, or committed before the error, or a chain of >= 2 middlewares, or a sequence of requests",
+		Rule:           "an Echo configuration x a sequence of 1-4 failing requests through that one Echo, served one after the other on one goroutine (pooled context reused), each judged on its own.  Error values as trees: plain | wrap (fmt.Errorf(%w), errors.Join, an application type with Unwrap) | *echo.HTTPError (NewHTTPError / literal / SetInternal / WithInternal) with message kinds {string, default StatusText, error value, json.Marshaler (also one that is an error too), map/struct/slice/named string type, nil} and Internal {none, plain, wrapped, HTTPError, nested}, depth <= 3 (thorough: 5), codes 200-599 incl. 204/304; plain errors are unique markers or one of 18 well-known error VALUES (context.Canceled, context.DeadlineExceeded, io.EOF, io.ErrUnexpectedEOF, http.ErrAbortHandler (returned), http.ErrHandlerTimeout, os.ErrNotExist, sql.ErrNoRows, net.ErrClosed, echo.ErrValidatorNotRegistered, ...); HTTP errors may be built from 16 exported echo variables (echo.ErrInternalServerError, ErrNotFound, ErrUnauthorized, ...) as they are or decorated with SetInternal (changes the variable for all later requests; the harness tracks that symbolically, runs such cases alone and restores the variables) / WithInternal; the router's own 404 / 405 as error sources.  x raised in the route's handler or in a middleware at Pre / Use / group level x returned or panicked (panic values: error, string, int, struct, http.ErrAbortHandler) x a middleware chain of 0-4 layers, each a Recover instance (Recover() or RecoverWithConfig with DisableErrorHandler, Skipper skipping per request, LogErrorFunc returning the same error / another error / nil, every LogLevel, DisablePrintStack, DisableStackAll, StackSize 0/1/64/4096/16384) or a middleware that calls c.Error(err) and returns err or nil, placed at Pre / Use / group / route level x Echo.HTTPErrorHandler = the default or a counting wrapper around it (number of hand-overs and the error value handed over are checked) x the failing code did {nothing, String, NoContent, Flush, WriteHeader, failed JSON} before failing, or wrote / flushed through the optional-interface probes of the standard library {io.Copy from a source without WriteTo (io.ReaderFrom), io.Copy from a strings.Reader and io.WriteString (io.StringWriter), c.Stream, http.ResponseController.Flush, the FlushError convention} with the implicit commit theirs (200 or a status preset by a failed JSON), on an underlying writer with none / io.ReaderFrom / io.StringWriter+FlushError / all of them (net/http's connection writer has all, httptest.ResponseRecorder none), the failure coming from the handler, from a middleware instead of the handler, or from the innermost Use-level middleware AFTER the handler returned x GET/HEAD/POST/PUT/DELETE/OPTIONS/PATCH x Debug x request context live / cancelled / past its deadline x underlying writer accepting or failing every Write; fixed families: legacy configurations, decision points of the handler (two Internal levels, %w around / inside an HTTPError), every well-known value in four positions x three chains, every exported variable decorated in request 1 and plain errors / panics / the bare variable / router 404+405 afterwards, every LogErrorFunc mode x DisableErrorHandler x outer middleware x LogLevel, Skipper masks over 1-3 (+1 default) instances; every text is a unique marker, a third of the string / error-valued messages and a quarter of the plain / wrapper texts and panic strings followed by one of 19 byte decorations (NUL, 0x01, \\a, \\v, DEL, invalid UTF-8, a surrogate half, a non-printable astral rune, U+2028/2029, C1 controls, BOM, quotes, backslash, HTML characters, ESC sequence, non-ASCII text, format verbs): the oracle decodes the body as JSON and compares message (and Debug detail) with the original text up to U+FFFD for invalid bytes; one request in eight panics INSIDE the commit step of its own response write (a Response.Before hook that panics with any kind of value, or a status code outside 100..999 on a writer that refuses it like net/http); a follow-up request checks the server still serves; thorough: 3000 cases also through a real httptest.Server; non-trivial = tree depth >= 2, or a panic, or committed before the error, or a chain of >= 2 middlewares, or a sequence of requests",
 		New:            func() any { return &c07Case{} },
 		Gen:            c07Gen,
 		Run:            c07Run,
